@@ -47,7 +47,18 @@ impl SimdOp for VmOp<'_> {
 }
 /// Apply vecmath function `f` in place on `isa`.
 pub fn run_fn(isa: &str, f: u32, buf: &mut [f32]) -> bool {
-    dispatch_on(isa, VmOp { f, buf }).is_some()
+    // a panic inside a kernel must not take the harness down: the whole chunk is then reported as
+    // a recognisable NaN, which mismatches every non-NaN reference
+    let r = std::panic::catch_unwind(std::panic::AssertUnwindSafe(|| dispatch_on(isa, VmOp { f, buf: &mut *buf }).is_some()));
+    match r {
+        Ok(v) => v,
+        Err(_) => {
+            for v in buf.iter_mut() {
+                *v = f32::from_bits(0x7fc0_dead);
+            }
+            false
+        }
+    }
 }
 
 /// PRIMARY reference: the mathematical function evaluated in f64 and rounded once to f32 (the
@@ -133,5 +144,9 @@ impl SimdOp for SoftmaxOp<'_> {
     }
 }
 pub fn run_softmax(isa: &str, buf: &mut [f32], inplace: bool) -> Option<Vec<f32>> {
-    dispatch_on(isa, SoftmaxOp { buf, inplace })
+    let n = buf.len();
+    match std::panic::catch_unwind(std::panic::AssertUnwindSafe(|| dispatch_on(isa, SoftmaxOp { buf, inplace }))) {
+        Ok(v) => v,
+        Err(_) => Some(vec![f32::NAN; n.max(1)]), // a panic is reported as NaN outputs
+    }
 }
